@@ -54,3 +54,664 @@ Definition is_precond (k : class) : bool := match k with ClPrecond => true | _ =
 
 Definition xguard_F4 (fx : fixes) (from_file : bool) (c : cfg) (ks : list class) : bool :=
   from_file && negb (fx4 fx) && valid_code (ov_precond c) && existsb is_precond ks.
+
+(** ** small facts *)
+
+Lemma option_eqb_str_refl (x : option string) : option_eqb String.eqb x x = true.
+Proof. destruct x; simpl; [apply String.eqb_refl | reflexivity]. Qed.
+
+Lemma prefix_refl_app p x : String.prefix p (p ++ x) = true.
+Proof.
+  induction p as [|a p IH]; simpl; [destruct x; reflexivity|].
+  destruct (ascii_dec a a) as [_|N]; [exact IH | contradiction].
+Qed.
+
+Lemma contains_empty s : contains "" s = true.
+Proof. destruct s; reflexivity. Qed.
+
+Lemma contains_prefix p s : String.prefix p s = true -> contains p s = true.
+Proof. intro H. destruct s; simpl in *; rewrite H; reflexivity. Qed.
+
+Lemma contains_app p a x : contains p (a ++ p ++ x) = true.
+Proof.
+  induction a as [|ch a IH]; simpl.
+  - apply contains_prefix, prefix_refl_app.
+  - rewrite IH. apply orb_true_r.
+Qed.
+
+Lemma contains_suffix p a : contains p (a ++ p) = true.
+Proof.
+  assert (E : (a ++ p)%string = (a ++ p ++ "")%string).
+  { f_equal. induction p as [|c p IH]; simpl; [reflexivity | rewrite <- IH; reflexivity]. }
+  rewrite E. apply contains_app.
+Qed.
+
+Lemma media_eqb_refl m : media_eqb m m = true.
+Proof. destruct m; reflexivity. Qed.
+
+Lemma ne_always_neg o : o_neg_http (ne_always o) = o_neg_http o /\ o_neg_grpc (ne_always o) = o_neg_grpc o.
+Proof. split; reflexivity. Qed.
+
+Lemma oracle_ok_ne_always nv o : oracle_ok nv (ne_always o) = oracle_ok nv o.
+Proof. reflexivity. Qed.
+
+(** ** the translators, fact by fact (no guard needed for these) *)
+
+(** the Content-Type on a writer the error writer works on (a first attempt whose WriteHeader
+    panicked may have left one): none, or the negotiated type of a verbose response *)
+Definition ct_inv (v : bool) (o : oracle) (h : hdrs) : Prop :=
+  h_ctype h = None \/ (v = true /\ h_ctype h = o_neg_http o /\ o_neg_http o <> None).
+
+Lemma ct_inv_no_hdrs v o : ct_inv v o no_hdrs.
+Proof. left. reflexivity. Qed.
+
+Lemma error_writer_generic v o code h :
+  ct_inv v o h ->
+  match error_writer v o code h with
+  | HResp s h' b =>
+      s = code /\ valid_code code = true /\ h_location h' = h_location h /\ h_www h' = h_www h /\ ct_inv v o h' /\
+      (b = true -> v = true /\ exists m, h_ctype h' = Some m /\ o_neg_http o = Some m)
+  | HPanic h' => valid_code code = false /\ h_location h' = h_location h /\ h_www h' = h_www h /\ ct_inv v o h'
+  end.
+Proof.
+  intro I. unfold error_writer.
+  destruct v.
+  - destruct (o_neg_http o) as [m|] eqn:N.
+    + destruct (body_ne o m); destruct (valid_code code) eqn:V; simpl;
+        repeat split; try reflexivity; try exact I; try discriminate;
+        try (right; repeat split; [symmetry; exact N | rewrite N; discriminate]);
+        try (exists m; split; reflexivity).
+    + destruct (valid_code code) eqn:V; simpl; repeat split; try reflexivity; try exact I; try discriminate.
+  - destruct (valid_code code) eqn:V; simpl; repeat split; try reflexivity; try exact I; try discriminate.
+Qed.
+
+Lemma http_handle_generic c o e h :
+  ct_inv (c_verbose c) o h ->
+  match http_handle c o e h with
+  | HResp s h' b =>
+      h_www h' = h_www h /\ ct_inv (c_verbose c) o h' /\
+      (b = true -> c_verbose c = true /\ exists m, h_ctype h' = Some m /\ o_neg_http o = Some m)
+  | HPanic h' => h_www h' = h_www h /\ ct_inv (c_verbose c) o h'
+  end.
+Proof.
+  intro I. rewrite (http_handle_view c o e h _ (spec_class_view e)).
+  assert (EW : forall code,
+    match error_writer (c_verbose c) o code h with
+    | HResp s h' b => h_www h' = h_www h /\ ct_inv (c_verbose c) o h' /\
+        (b = true -> c_verbose c = true /\ exists m, h_ctype h' = Some m /\ o_neg_http o = Some m)
+    | HPanic h' => h_www h' = h_www h /\ ct_inv (c_verbose c) o h'
+    end).
+  { intro code. pose proof (error_writer_generic (c_verbose c) o code h I) as G.
+    destruct (error_writer (c_verbose c) o code h); [destruct G as (_ & _ & _ & W & J & B) | destruct G as (_ & _ & W & J)]; auto. }
+  destruct (spec_class e) as [| | | | |code to|]; try apply EW.
+  simpl. destruct (valid_code code); simpl; repeat split; try exact I; discriminate.
+Qed.
+
+Lemma grpc_handle_generic c o e d : grpc_handle c o e = Some d ->
+  g_code d <> GOk /\ h_www (g_hdrs d) = None /\
+  (g_body d = true -> c_verbose c = true /\
+     exists m, h_ctype (g_hdrs d) = Some m /\ (o_neg_grpc o = Some m \/ (o_neg_grpc o = None /\ m = Html))).
+Proof.
+  rewrite (grpc_handle_view c o e _ (spec_class_view e)).
+  assert (ER : forall gc code x, gc <> GOk -> Some (error_response gc code (c_verbose c) o) = Some x ->
+    g_code x <> GOk /\ h_www (g_hdrs x) = None /\
+    (g_body x = true -> c_verbose c = true /\
+       exists m, h_ctype (g_hdrs x) = Some m /\ (o_neg_grpc o = Some m \/ (o_neg_grpc o = None /\ m = Html)))).
+  { intros gc code x Hg E. inversion E; subst x. clear E. unfold error_response.
+    destruct (c_verbose c); simpl; repeat split; try assumption; try discriminate.
+    destruct (o_neg_grpc o) as [m|]; eexists; split; try reflexivity; auto. }
+  destruct (spec_class e) as [| | | | |code to|]; try (apply ER; discriminate).
+  intro E; inversion E; subst d. simpl. repeat split; try discriminate.
+Qed.
+
+(** ** which failure reaches the translator *)
+
+(** an error handler list never makes a failure disappear: some error always reaches the
+    translator (blind spot of a composite handler that would swallow a failing handler) *)
+Lemma x_exec_final h cause : exists e, final_error (x_exec h cause) = Some e.
+Proof.
+  destruct h as [a m w]. unfold x_exec; simpl.
+  destruct m as [|code [url|]|realm]; destruct w; unfold final_error; simpl; eauto.
+Qed.
+
+Lemma run_handlers_final hs cause : exists e, final_error (run_handlers hs cause) = Some e.
+Proof.
+  induction hs as [|h r IH]; simpl; [unfold final_error; simpl; eauto|].
+  destruct (x_applies h); [apply x_exec_final | exact IH].
+Qed.
+
+(** ... and that error is of the kind the specification demands for the list *)
+Lemma x_exec_class h cause e :
+  final_error (x_exec h cause) = Some e -> spec_class e = handler_class (x_mech h) cause.
+Proof.
+  destruct h as [a m w]. unfold x_exec; simpl.
+  destruct m as [|code [url|]|realm]; destruct w; unfold final_error; simpl;
+    intro E; inversion E; subst; reflexivity.
+Qed.
+
+Lemma run_handlers_class hs cause e :
+  final_error (run_handlers hs cause) = Some e ->
+  spec_class e = match first_applicable hs with
+                 | None => spec_class cause
+                 | Some h => handler_class (x_mech h) cause
+                 end.
+Proof.
+  induction hs as [|h r IH]; simpl.
+  - unfold final_error; simpl. intro E; inversion E; reflexivity.
+  - destruct (x_applies h); [apply x_exec_class | exact IH].
+Qed.
+
+Lemma spec_class_recovered v :
+  spec_class (recovered v) = match v with Some e => spec_class e | None => ClInternal end.
+Proof.
+  unfold recovered, spec_class, occurs. simpl. rewrite app_nil_r.
+  destruct v as [e|]; reflexivity.
+Qed.
+
+Lemma x_error_class proxy sc e fc :
+  x_scenario_error proxy sc = Some (Some e, fc) -> In (spec_class e) (d_classes (demand_of sc)).
+Proof.
+  destruct sc as [hs cause|v|p]; simpl; try discriminate.
+  - intro E. inversion E as [[E1 E2]]. apply run_handlers_class in E1. rewrite E1.
+    destruct (first_applicable hs); simpl; auto.
+  - destruct proxy; intro E; inversion E; subst. destruct p; simpl; auto.
+Qed.
+
+Lemma x_panic_class v : In (spec_class (recovered v)) (d_classes (demand_of (XPanic v))).
+Proof. rewrite spec_class_recovered. destruct v; simpl; auto. Qed.
+
+(** ** the configuration as loaded *)
+Lemma loaded_verbose fx file c : c_verbose (loaded fx file c) = c_verbose c.
+Proof. unfold loaded. destruct (file && negb (fx4 fx)); reflexivity. Qed.
+
+Lemma loaded_status fx file c ks k :
+  In k ks -> xguard_F4 fx file c ks = false -> spec_status_of (loaded fx file c) k = spec_status_of c k.
+Proof.
+  intros Hin G. unfold loaded. destruct (file && negb (fx4 fx)) eqn:F; [|reflexivity].
+  destruct k; try reflexivity.
+  unfold spec_status_of; simpl. unfold xguard_F4 in G. rewrite F in G. simpl in G.
+  assert (P : existsb is_precond ks = true) by (apply existsb_exists; exists ClPrecond; auto).
+  rewrite P, andb_true_r in G. rewrite G. reflexivity.
+Qed.
+
+Lemma loaded_not_success fx file c : ov_not_success_b c = true -> overrides_not_success (loaded fx file c).
+Proof.
+  unfold ov_not_success_b, overrides_not_success, loaded. intro H.
+  repeat (apply andb_true_iff in H as [H ?]).
+  repeat match goal with X : negb _ = true |- _ => apply negb_true_iff in X end.
+  destruct (file && negb (fx4 fx)); simpl; auto 10.
+Qed.
+
+(** ** never a success status, at entry-point level *)
+Lemma forallb_app_l {A} (f : A -> bool) l1 l2 : forallb f (l1 ++ l2) = true -> forallb f l1 = true /\ forallb f l2 = true.
+Proof. rewrite forallb_app. apply andb_true_iff. Qed.
+
+Lemma codes_not_success e : forallb (fun z => negb (success_like z)) (redirect_codes e) = true -> redirects_not_success e.
+Proof.
+  intros H z Hz. rewrite forallb_forall in H. apply H in Hz. apply negb_true_iff in Hz. exact Hz.
+Qed.
+
+Lemma x_exec_not_success h cause e :
+  redirects_not_success cause ->
+  match x_mech h with MRedirect code _ => success_like (redirect_status code) = false | _ => True end ->
+  final_error (x_exec h cause) = Some e -> redirects_not_success e.
+Proof.
+  destruct h as [a m w]. unfold x_exec; simpl. intros Hc Hm.
+  destruct m as [|code [url|]|realm]; destruct w; unfold final_error; simpl; intro E; inversion E; subst;
+    try exact Hc; try (apply redirects_not_success_leaf; exact I);
+    try (apply redirects_not_success_chain2; apply redirects_not_success_leaf; exact I).
+  - intros z Hz. simpl in Hz. destruct Hz as [Hz|[]]. subst. exact Hm.
+  - intros z Hz. simpl in Hz. destruct Hz as [Hz|[]]. subst. exact Hm.
+Qed.
+
+Lemma x_final_not_success proxy c sc e fc :
+  hyp_never_success c sc = true -> x_scenario_error proxy sc = Some (Some e, fc) -> redirects_not_success e.
+Proof.
+  unfold hyp_never_success. intro H. apply andb_true_iff in H as [_ H].
+  destruct sc as [hs cause|v|p]; simpl in *; try discriminate.
+  - apply forallb_app_l in H as [Hc Hh]. apply codes_not_success in Hc.
+    intro E. inversion E as [[E1 E2]]. clear E E2. revert E1.
+    induction hs as [|h r IH]; simpl.
+    + unfold final_error; simpl. intro E; inversion E; subst. exact Hc.
+    + simpl in Hh. apply forallb_app_l in Hh as [H1 H2].
+      destruct (x_applies h); [|apply IH; exact H2].
+      apply x_exec_not_success; [exact Hc|].
+      destruct (x_mech h); try exact I. simpl in H1. rewrite andb_true_r in H1. apply negb_true_iff in H1. exact H1.
+  - destruct proxy; intro E; inversion E; subst. destruct p.
+    + intros z Hz; simpl in Hz; contradiction.
+    + intros z Hz; simpl in Hz; contradiction.
+Qed.
+
+Lemma x_panic_not_success c v : hyp_never_success c (XPanic v) = true ->
+  match v with Some e => redirects_not_success e | None => True end.
+Proof.
+  unfold hyp_never_success. intro H. apply andb_true_iff in H as [_ H].
+  destruct v as [e|]; [|exact I]. apply codes_not_success. exact H.
+Qed.
+
+(** ** the entry points: what holds always, and what holds outside C12-F2 / C12-F4 *)
+
+Lemma ct_inv_oracle v o1 o2 h : o_neg_http o1 = o_neg_http o2 -> ct_inv v o1 h -> ct_inv v o2 h.
+Proof. unfold ct_inv. intros E [H|H]; [left; exact H | right; rewrite <- E; exact H]. Qed.
+
+(** what every HTTP answer to a failure satisfies, F2 or not *)
+Definition hfinal_generic (hyp verbose : bool) (o : oracle) (f : hfinal) : Prop :=
+  match f with
+  | HFinal s h b =>
+      (hyp = true -> success_like s = false) /\ h_www h = None /\
+      (b = true -> verbose = true /\ exists m, h_ctype h = Some m /\ o_neg_http o = Some m)
+  | HAbort => True
+  | HPositive => False
+  end.
+
+Lemma http_recover_generic hyp c o v h0 :
+  ct_inv (c_verbose c) o h0 -> h_www h0 = None ->
+  (hyp = true -> overrides_not_success c /\ match v with Some e => redirects_not_success e | None => True end) ->
+  hfinal_generic hyp (c_verbose c) o (http_recover c o v h0).
+Proof.
+  intros I W H. unfold http_recover.
+  pose proof (http_handle_generic c (ne_always o) (recovered v) h0 (ct_inv_oracle _ o (ne_always o) h0 eq_refl I)) as G.
+  destruct (http_handle c (ne_always o) (recovered v) h0) as [s h b|h] eqn:E; simpl; [|trivial].
+  destruct G as (G1 & _ & G3). split; [|split].
+  - intro Hy. destruct (H Hy) as [HO HV].
+    pose proof (proj1 (never_success c (ne_always o) (recovered v) h0 HO (recovered_not_success v HV))) as N.
+    rewrite E in N. exact N.
+  - congruence.
+  - exact G3.
+Qed.
+
+Lemma x_http_generic hyp proxy c o sc :
+  (hyp = true -> overrides_not_success c) ->
+  (hyp = true -> forall e fc, x_scenario_error proxy sc = Some (Some e, fc) -> redirects_not_success e) ->
+  (hyp = true -> forall v, sc = XPanic v -> match v with Some e => redirects_not_success e | None => True end) ->
+  match sc with XProxy _ => proxy = true | _ => True end ->
+  hfinal_generic hyp (c_verbose c) o (x_http_respond proxy c o sc).
+Proof.
+  intros HO HE HP HX. unfold x_http_respond.
+  destruct (x_scenario_error proxy sc) as [[[e|] fc]|] eqn:SE.
+  - set (o' := if fc then o else ne_always o).
+    assert (EO : o_neg_http o' = o_neg_http o) by (unfold o'; destruct fc; reflexivity).
+    pose proof (http_handle_generic c o' e no_hdrs (ct_inv_no_hdrs _ _)) as G.
+    destruct (http_handle c o' e no_hdrs) as [s h b|h] eqn:E.
+    + destruct G as (G1 & _ & G3). simpl. split; [|split].
+      * intro Hy. pose proof (proj1 (never_success c o' e no_hdrs (HO Hy) (HE Hy e fc eq_refl))) as N.
+        rewrite E in N. exact N.
+      * exact G1.
+      * rewrite <- EO. exact G3.
+    + destruct G as (G1 & G2). apply http_recover_generic.
+      * apply (ct_inv_oracle _ o' o h EO G2).
+      * exact G1.
+      * intro Hy. split; [apply HO; exact Hy | exact I].
+  - (* no error: only an XProxy scenario on a service that is not the proxy *)
+    destruct sc as [hs cause|v|p]; simpl in SE; try discriminate.
+    + inversion SE as [[E1 E2]]. destruct (run_handlers_final hs cause) as (e & E). congruence.
+    + subst proxy. discriminate.
+  - destruct sc as [hs cause|v|p]; simpl in SE; try discriminate.
+    + apply http_recover_generic; [apply ct_inv_no_hdrs | reflexivity|].
+      intro Hy. split; [apply HO; exact Hy | apply (HP Hy v eq_refl)].
+    + destruct proxy; discriminate.
+Qed.
+
+Lemma existsb_false_In {A} (f : A -> bool) l x : existsb f l = false -> In x l -> f x = false.
+Proof.
+  intros H Hin. destruct (f x) eqn:E; [|reflexivity].
+  assert (existsb f l = true) by (apply existsb_exists; eauto). congruence.
+Qed.
+
+(** outside C12-F2 every HTTP answer has the status and Location of an admissible kind *)
+Lemma x_http_exact proxy c o sc :
+  xguard_F2 c sc = false -> match sc with XProxy _ => proxy = true | _ => True end ->
+  exists k s h b, x_http_respond proxy c o sc = HFinal s h b /\ In k (d_classes (demand_of sc)) /\
+                  s = spec_status_of c k /\ h_location h = class_location k.
+Proof.
+  intros G HX. unfold xguard_F2 in G. unfold x_http_respond.
+  destruct (x_scenario_error proxy sc) as [[[e|] fc]|] eqn:SE.
+  - pose proof (x_error_class proxy sc e fc SE) as Hin.
+    pose proof (existsb_false_In _ _ _ G Hin) as G2.
+    destruct (http_kind_table c (if fc then o else ne_always o) e no_hdrs G2) as (h & b & E & L).
+    rewrite E. exists (spec_class e), (spec_status c e), h, b. repeat split; try assumption.
+    rewrite L. unfold spec_location. destruct (class_location (spec_class e)); reflexivity.
+  - destruct sc as [hs cause|v|p]; simpl in SE; try discriminate.
+    + inversion SE as [[E1 E2]]. destruct (run_handlers_final hs cause) as (e & E). congruence.
+    + subst proxy. discriminate.
+  - destruct sc as [hs cause|v|p]; simpl in SE; try discriminate; [|destruct proxy; discriminate].
+    pose proof (x_panic_class v) as Hin.
+    pose proof (existsb_false_In _ _ _ G Hin) as G2.
+    unfold http_recover.
+    destruct (http_kind_table c (ne_always o) (recovered v) no_hdrs G2) as (h & b & E & L).
+    rewrite E. exists (spec_class (recovered v)), (spec_status c (recovered v)), h, b. repeat split; try assumption.
+    rewrite L. unfold spec_location. destruct (class_location (spec_class (recovered v))); reflexivity.
+Qed.
+
+(** the same for the Envoy gRPC service *)
+Definition gfinal_generic (hyp verbose : bool) (o : oracle) (g : gfinal) : Prop :=
+  match g with
+  | GDenied d =>
+      (hyp = true -> success_like (g_status d) = false) /\ g_code d <> GOk /\ h_www (g_hdrs d) = None /\
+      (g_body d = true -> verbose = true /\
+         exists m, h_ctype (g_hdrs d) = Some m /\ (o_neg_grpc o = Some m \/ (o_neg_grpc o = None /\ m = Html)))
+  | GStatusErr c => c <> GOk
+  | GPositive => False
+  end.
+
+Lemma x_grpc_generic hyp c o sc :
+  (hyp = true -> overrides_not_success c) ->
+  (hyp = true -> forall e fc, x_scenario_error false sc = Some (Some e, fc) -> redirects_not_success e) ->
+  match sc with XProxy _ => False | _ => True end ->
+  gfinal_generic hyp (c_verbose c) o (x_grpc_respond c o sc).
+Proof.
+  intros HO HE HX. unfold x_grpc_respond.
+  destruct (x_scenario_error false sc) as [[[e|] fc]|] eqn:SE; simpl.
+  - set (o' := if fc then o else ne_always o).
+    assert (EO : o_neg_grpc o' = o_neg_grpc o) by (unfold o'; destruct fc; reflexivity).
+    destruct (grpc_handle c o' e) as [d|] eqn:E; simpl; [|discriminate].
+    destruct (grpc_handle_generic c o' e d E) as (G1 & G2 & G3).
+    split; [|split; [exact G1 | split; [exact G2 | rewrite <- EO; exact G3]]].
+    intro Hy. pose proof (proj2 (never_success c o' e no_hdrs (HO Hy) (HE Hy e fc eq_refl))) as N.
+    rewrite E in N. apply N.
+  - destruct sc as [hs cause|v|p]; simpl in SE; try discriminate; [|contradiction].
+    inversion SE as [[E1 E2]]. destruct (run_handlers_final hs cause) as (e & E). congruence.
+  - discriminate.
+Qed.
+
+Lemma x_grpc_exact c o sc :
+  xguard_F2 c sc = false -> match sc with XFail _ _ => True | _ => False end ->
+  exists k d, x_grpc_respond c o sc = GDenied d /\ In k (d_classes (demand_of sc)) /\
+              g_status d = spec_status_of c k /\ h_location (g_hdrs d) = class_location k.
+Proof.
+  intros G HX. unfold xguard_F2 in G. unfold x_grpc_respond.
+  destruct sc as [hs cause|v|p]; try contradiction.
+  destruct (x_scenario_error false (XFail hs cause)) as [[[e|] fc]|] eqn:SE.
+  - pose proof (x_error_class false _ e fc SE) as Hin.
+    pose proof (existsb_false_In _ _ _ G Hin) as G2.
+    destruct (grpc_kind_table c (if fc then o else ne_always o) e G2) as (d & E & S & _ & L).
+    rewrite E. exists (spec_class e), d. repeat split; assumption.
+  - simpl in SE. inversion SE as [[E1 E2]]. destruct (run_handlers_final hs cause) as (e & E). congruence.
+  - simpl in SE. discriminate.
+Qed.
+
+(** ** the challenge of a www_authenticate handler names the configured realm *)
+Lemma x_challenge_names sc realm :
+  d_realm (demand_of sc) = Some realm ->
+  exists v, x_challenge sc = Some v /\ x_challenges sc = [v] /\ contains realm v = true.
+Proof.
+  destruct sc as [hs cause|v|[|]]; simpl; try discriminate.
+  induction hs as [|h r IH]; simpl; [discriminate|].
+  destruct (x_applies h) eqn:A; [|exact IH].
+  simpl. unfold handler_realm, x_exec. destruct h as [a m w]; simpl.
+  destruct m as [|code [url|]|rlm]; try discriminate.
+  destruct w as [|r']; simpl; intro E; inversion E; subst realm; clear E.
+  - eexists; split; [reflexivity|]. split; [reflexivity|].
+    destruct (String.length rlm =? 0)%nat eqn:L.
+    + destruct rlm; [apply contains_empty | discriminate].
+    + exact (contains_suffix rlm "Basic realm=").
+  - eexists; split; [reflexivity|]. split; [reflexivity|]. exact (contains_suffix r' "Basic realm=").
+Qed.
+
+Lemma x_challenge_none sc : d_realm (demand_of sc) = None -> x_challenges sc = [] .
+Proof.
+  destruct sc as [hs cause|v|p]; simpl; try reflexivity.
+  induction hs as [|h r IH]; simpl; [reflexivity|].
+  destruct (x_applies h) eqn:A; [|exact IH].
+  simpl. unfold handler_realm, x_exec. destruct h as [a m w]; simpl.
+  destruct m as [|code [url|]|rlm]; destruct w; simpl; try reflexivity; discriminate.
+Qed.
+
+(** ** the entry points meet the specification *)
+
+(** the clauses the open findings break on an input (nothing is waived outside their guards) *)
+Definition xwaiver (fx : fixes) (from_file : bool) (c : cfg) (sc : xscenario) : waiver :=
+  {| w_status := xguard_F2 (loaded fx from_file c) sc || xguard_F4 fx from_file c (d_classes (demand_of sc));
+     w_www := xguard_F1 fx sc |}.
+
+Lemma allowed_of_oracle_http nv o m : oracle_ok nv o = true -> o_neg_http o = Some m -> allowed nv (CtKnown m) = true.
+Proof. unfold oracle_ok. intros H E. rewrite E in H. apply andb_true_iff in H as [H _]. exact H. Qed.
+
+Lemma allowed_of_oracle_grpc nv o m : oracle_ok nv o = true ->
+  (o_neg_grpc o = Some m \/ (o_neg_grpc o = None /\ m = Html)) -> allowed nv (CtKnown m) = true.
+Proof.
+  unfold oracle_ok. intros H E. apply andb_true_iff in H as [_ H].
+  destruct E as [E|[E ->]]; rewrite E in H; exact H.
+Qed.
+
+Lemma with_www_fields w h :
+  h_location (with_www w h) = h_location h /\ h_ctype (with_www w h) = h_ctype h /\
+  h_www (with_www w h) = match w with Some v => Some v | None => h_www h end.
+Proof. destruct w; simpl; auto. Qed.
+
+Lemma with_www_loc w h : h_location (with_www w h) = h_location h.
+Proof. destruct w; reflexivity. Qed.
+
+Lemma reply_ok_w_intro w c nv hyp d s h b :
+  (w_status w = false -> exists k, In k (d_classes d) /\ s = spec_status_of c k /\ h_location h = class_location k) ->
+  (hyp = true -> success_like s = false) ->
+  (b = true -> c_verbose c = true /\ exists m, h_ctype h = Some m /\ allowed nv (CtKnown m) = true) ->
+  (w_www w = false -> forall realm, d_realm d = Some realm -> exists v, h_www h = Some v /\ contains realm v = true) ->
+  reply_ok_w w c nv hyp d (reply_of s h b) = true.
+Proof.
+  intros H1 H2 H3 H4. unfold reply_ok_w, reply_of; simpl.
+  apply andb_true_iff; split; [apply andb_true_iff; split; [apply andb_true_iff; split|]|].
+  - destruct (w_status w); [reflexivity|]. simpl.
+    destruct (H1 eq_refl) as (k & Hin & Hs & Hl). apply existsb_exists. exists k. split; [exact Hin|].
+    unfold class_ok; simpl. subst s. rewrite Z.eqb_refl, Hl. simpl. apply option_eqb_str_refl.
+  - destruct hyp; [|reflexivity]. simpl. rewrite (H2 eq_refl). reflexivity.
+  - destruct b; [|reflexivity]. simpl. destruct (H3 eq_refl) as (V & m & Hm & A).
+    rewrite V, Hm, A. reflexivity.
+  - destruct (w_www w); [reflexivity|]. simpl.
+    destruct (d_realm d) as [realm|]; [|reflexivity].
+    destruct (H4 eq_refl realm eq_refl) as (v & Hv & Cv). rewrite Hv. exact Cv.
+Qed.
+
+Lemma hyp_parts c sc : hyp_never_success c sc = true -> ov_not_success_b c = true.
+Proof. unfold hyp_never_success. intro H. apply andb_true_iff in H as [H _]. exact H. Qed.
+
+Lemma fx1_of_guard fx sc realm : xguard_F1 fx sc = false -> d_realm (demand_of sc) = Some realm -> fx1 fx = true.
+Proof. unfold xguard_F1. intros G E. rewrite E in G. destruct (fx1 fx); [reflexivity | discriminate]. Qed.
+
+(** decision and proxy service: on EVERY input the answer satisfies every clause of the
+    statement that no open finding breaks there ([xwaiver]); outside the guards, all of them *)
+Theorem http_entry_meets_spec fx proxy file c o nv sc :
+  oracle_ok nv o = true -> match sc with XProxy _ => proxy = true | _ => True end ->
+  seen_ok_w (xwaiver fx file c sc) c nv (hyp_never_success c sc) (demand_of sc)
+            (seen_of_hfinal (entry_http fx proxy file c o sc)) = true.
+Proof.
+  intros OK HX.
+  set (c' := loaded fx file c). set (hyp := hyp_never_success c sc).
+  assert (G : hfinal_generic hyp (c_verbose c') o (x_http_respond proxy c' o sc)).
+  { apply x_http_generic; try exact HX.
+    - intro Hy. apply loaded_not_success. apply (hyp_parts c sc Hy).
+    - intros Hy e fc SE. apply (x_final_not_success proxy c sc e fc Hy SE).
+    - intros Hy v ->. apply (x_panic_not_success c v Hy). }
+  assert (EX : w_status (xwaiver fx file c sc) = false ->
+    exists k s h b, x_http_respond proxy c' o sc = HFinal s h b /\ In k (d_classes (demand_of sc)) /\
+                    s = spec_status_of c k /\ h_location h = class_location k).
+  { simpl. intro W. apply orb_false_iff in W as [W2 W4].
+    destruct (x_http_exact proxy c' o sc W2 HX) as (k & s & h & b & E & Hin & Hs & Hl).
+    exists k, s, h, b. repeat split; try assumption.
+    rewrite Hs. apply (loaded_status fx file c _ k Hin W4). }
+  unfold entry_http. fold c'.
+  destruct (x_http_respond proxy c' o sc) as [s h b| |] eqn:R; simpl.
+  - destruct G as (G1 & G2 & G3).
+    set (h2 := if fx1 fx then with_www (x_challenge sc) h else h).
+    assert (F : h_location h2 = h_location h /\ h_ctype h2 = h_ctype h).
+    { unfold h2. destruct (fx1 fx); [|auto]. destruct (with_www_fields (x_challenge sc) h) as (A & B & _). auto. }
+    destruct F as [FL FC].
+    apply reply_ok_w_intro.
+    + intro W. destruct (EX W) as (k & s0 & h0 & b0 & E & Hin & Hs & Hl). inversion E; subst s0 h0 b0.
+      exists k. repeat split; try assumption. rewrite FL. exact Hl.
+    + exact G1.
+    + intro Hb. destruct (G3 Hb) as (V & m & Hm & N). split; [rewrite <- (loaded_verbose fx file c); exact V|].
+      exists m. split; [rewrite FC; exact Hm | apply (allowed_of_oracle_http nv o m OK N)].
+    + simpl. intros W realm E. pose proof (fx1_of_guard fx sc realm W E) as F1.
+      destruct (x_challenge_names sc realm E) as (v & Cv & _ & Nv).
+      exists v. split; [|exact Nv]. unfold h2. rewrite F1, Cv. reflexivity.
+  - destruct (w_status (xwaiver fx file c sc)) eqn:W.
+    + simpl in W. rewrite W. apply orb_true_r.
+    + destruct (EX eq_refl) as (k & s0 & h0 & b0 & E & _). discriminate.
+  - contradiction.
+Qed.
+
+Lemma gcode_eqb_neq g : g <> GOk -> gcode_eqb g GOk = false.
+Proof. destruct g; simpl; intro H; try reflexivity. contradiction. Qed.
+
+(** the Envoy gRPC service *)
+Theorem grpc_entry_meets_spec fx file c o nv sc :
+  oracle_ok nv o = true -> match sc with XProxy _ => False | _ => True end ->
+  seen_ok_w (xwaiver fx file c sc) c nv (hyp_never_success c sc) (demand_of sc)
+            (seen_of_gfinal (entry_grpc fx file c o sc)) = true.
+Proof.
+  intros OK HX.
+  set (c' := loaded fx file c). set (hyp := hyp_never_success c sc).
+  assert (G : gfinal_generic hyp (c_verbose c') o (x_grpc_respond c' o sc)).
+  { apply x_grpc_generic; try exact HX.
+    - intro Hy. apply loaded_not_success. apply (hyp_parts c sc Hy).
+    - intros Hy e fc SE. apply (x_final_not_success false c sc e fc Hy SE). }
+  assert (EX : w_status (xwaiver fx file c sc) = false -> match sc with XFail _ _ => True | _ => False end ->
+    exists k d, x_grpc_respond c' o sc = GDenied d /\ In k (d_classes (demand_of sc)) /\
+                g_status d = spec_status_of c k /\ h_location (g_hdrs d) = class_location k).
+  { simpl. intros W HF. apply orb_false_iff in W as [W2 W4].
+    destruct (x_grpc_exact c' o sc W2 HF) as (k & d & E & Hin & Hs & Hl).
+    exists k, d. repeat split; try assumption.
+    rewrite Hs. apply (loaded_status fx file c _ k Hin W4). }
+  unfold entry_grpc. fold c'.
+  destruct (x_grpc_respond c' o sc) as [d|g|] eqn:R.
+  - destruct G as (G1 & G2 & G3 & G4).
+    assert (XF : match sc with XFail _ _ => True | _ => False end).
+    { destruct sc as [hs cause|v|p]; [exact I | | contradiction]. unfold x_grpc_respond in R. simpl in R. discriminate. }
+    set (h2 := if fx1 fx then with_www (x_challenge sc) (g_hdrs d) else g_hdrs d).
+    assert (F : h_location h2 = h_location (g_hdrs d) /\ h_ctype h2 = h_ctype (g_hdrs d)).
+    { unfold h2. destruct (fx1 fx); [|auto]. destruct (with_www_fields (x_challenge sc) (g_hdrs d)) as (A & B & _). auto. }
+    destruct F as [FL FC].
+    assert (S : seen_of_gfinal (GDenied (if fx1 fx
+                   then {| g_code := g_code d; g_status := g_status d; g_hdrs := with_www (x_challenge sc) (g_hdrs d); g_body := g_body d |}
+                   else d)) = SReply (reply_of (g_status d) h2 (g_body d))).
+    { unfold seen_of_gfinal, seen_of_gdenied, h2. destruct (fx1 fx); simpl; rewrite (gcode_eqb_neq _ G2); reflexivity. }
+    rewrite S. unfold seen_ok_w.
+    apply reply_ok_w_intro.
+    + intro W. destruct (EX W XF) as (k & d0 & E & Hin & Hs & Hl). inversion E; subst d0.
+      exists k. repeat split; try assumption. rewrite FL. exact Hl.
+    + exact G1.
+    + intro Hb. destruct (G4 Hb) as (V & m & Hm & N). split; [rewrite <- (loaded_verbose fx file c); exact V|].
+      exists m. split; [rewrite FC; exact Hm | apply (allowed_of_oracle_grpc nv o m OK N)].
+    + intros W realm E. pose proof (fx1_of_guard fx sc realm W E) as F1.
+      destruct (x_challenge_names sc realm E) as (v & Cv & _ & Nv).
+      exists v. split; [|exact Nv]. unfold h2. rewrite F1, Cv. reflexivity.
+  - simpl in G. unfold seen_of_gfinal. rewrite (gcode_eqb_neq _ G). unfold seen_ok_w.
+    destruct (w_status (xwaiver fx file c sc)) eqn:W; [apply orb_true_r|].
+    destruct sc as [hs cause|v|p]; [|reflexivity | contradiction].
+    destruct (EX eq_refl I) as (k & d0 & E & _). discriminate.
+  - contradiction.
+Qed.
+
+(** ** the two translators on an error value itself (same statement, one level down) *)
+Definition twaiver (fx : fixes) (from_file : bool) (c : cfg) (e : err) : waiver :=
+  {| w_status := guard_F2 (loaded fx from_file c) e || xguard_F4 fx from_file c [spec_class e]; w_www := false |}.
+
+Definition tdemand (e : err) : demand := {| d_classes := [spec_class e]; d_realm := None; d_hard := false |}.
+
+Definition thyp (c : cfg) (e : err) : bool :=
+  ov_not_success_b c && forallb (fun z => negb (success_like z)) (redirect_codes e).
+
+Lemma thyp_parts fx file c e : thyp c e = true -> overrides_not_success (loaded fx file c) /\ redirects_not_success e.
+Proof.
+  unfold thyp. intro H. apply andb_true_iff in H as [H1 H2].
+  split; [apply loaded_not_success; exact H1 | apply codes_not_success; exact H2].
+Qed.
+
+Theorem http_translator_meets_spec fx file c o nv e :
+  oracle_ok nv o = true ->
+  seen_ok_w (twaiver fx file c e) c nv (thyp c e) (tdemand e)
+            (seen_of_hresp (http_handle (loaded fx file c) o e no_hdrs)) = true.
+Proof.
+  intro OK. set (c' := loaded fx file c).
+  pose proof (http_handle_generic c' o e no_hdrs (ct_inv_no_hdrs _ _)) as G.
+  assert (EX : w_status (twaiver fx file c e) = false ->
+    exists h b, http_handle c' o e no_hdrs = HResp (spec_status_of c (spec_class e)) h b /\
+                h_location h = class_location (spec_class e)).
+  { simpl. intro W. apply orb_false_iff in W as [W2 W4].
+    destruct (http_kind_table c' o e no_hdrs W2) as (h & b & E & L).
+    exists h, b. split.
+    - rewrite E. unfold spec_status. f_equal. apply (loaded_status fx file c [spec_class e]); [left; reflexivity | exact W4].
+    - rewrite L. unfold spec_location. destruct (class_location (spec_class e)); reflexivity. }
+  destruct (http_handle c' o e no_hdrs) as [s h b|h] eqn:R; simpl.
+  - destruct G as (G1 & _ & G3). apply reply_ok_w_intro.
+    + intro W. destruct (EX W) as (h0 & b0 & E & L). inversion E; subst.
+      exists (spec_class e). split; [left; reflexivity | split; [reflexivity | exact L]].
+    + intro Hy. destruct (thyp_parts fx file c e Hy) as [HO HR].
+      pose proof (proj1 (never_success c' o e no_hdrs HO HR)) as N. fold c' in N. rewrite R in N. exact N.
+    + intro Hb. destruct (G3 Hb) as (V & m & Hm & N). split; [rewrite <- (loaded_verbose fx file c); exact V|].
+      exists m. split; [exact Hm | apply (allowed_of_oracle_http nv o m OK N)].
+    + simpl. intros _ realm E. discriminate.
+  - destruct (w_status (twaiver fx file c e)) eqn:W; [simpl in W; rewrite W; reflexivity|].
+    destruct (EX eq_refl) as (h0 & b0 & E & _). discriminate.
+Qed.
+
+Theorem grpc_translator_meets_spec fx file c o nv e :
+  oracle_ok nv o = true ->
+  seen_ok_w (twaiver fx file c e) c nv (thyp c e) (tdemand e)
+            (seen_of_ghandle (grpc_handle (loaded fx file c) o e)) = true.
+Proof.
+  intro OK. set (c' := loaded fx file c).
+  assert (EX : w_status (twaiver fx file c e) = false ->
+    exists d, grpc_handle c' o e = Some d /\ g_status d = spec_status_of c (spec_class e) /\
+              h_location (g_hdrs d) = class_location (spec_class e)).
+  { simpl. intro W. apply orb_false_iff in W as [W2 W4].
+    destruct (grpc_kind_table c' o e W2) as (d & E & S & _ & L).
+    exists d. repeat split; try assumption.
+    rewrite S. unfold spec_status. apply (loaded_status fx file c [spec_class e]); [left; reflexivity | exact W4]. }
+  destruct (grpc_handle c' o e) as [d|] eqn:R; simpl.
+  - destruct (grpc_handle_generic c' o e d R) as (G2 & G3 & G4).
+    unfold seen_of_gdenied. rewrite (gcode_eqb_neq _ G2). simpl.
+    apply reply_ok_w_intro.
+    + intro W. destruct (EX W) as (d0 & E & S & L). inversion E; subst d0.
+      exists (spec_class e). split; [left; reflexivity | split; assumption].
+    + intro Hy. destruct (thyp_parts fx file c e Hy) as [HO HR].
+      pose proof (proj2 (never_success c' o e no_hdrs HO HR)) as N. fold c' in N. rewrite R in N. apply N.
+    + intro Hb. destruct (G4 Hb) as (V & m & Hm & N). split; [rewrite <- (loaded_verbose fx file c); exact V|].
+      exists m. split; [exact Hm | apply (allowed_of_oracle_grpc nv o m OK N)].
+    + simpl. intros _ realm E. discriminate.
+  - destruct (w_status (twaiver fx file c e)) eqn:W; [simpl in W; rewrite W; reflexivity|].
+    destruct (EX eq_refl) as (d0 & E & _). discriminate.
+Qed.
+
+(** ** "identically by the HTTP services and the Envoy gRPC service" (outside C12-F2) *)
+Theorem translators_same c o e :
+  guard_F2 c e = false ->
+  same_reply (seen_of_hresp (http_handle c o e no_hdrs)) (seen_of_ghandle (grpc_handle c o e)) = true.
+Proof.
+  intro G. destruct (kind_table c o e G) as ((h & b & E & L) & (d & Ed & S & Gc & Ld)).
+  rewrite E, Ed. simpl. unfold seen_of_gdenied.
+  destruct (gcode_eqb (g_code d) GOk); [reflexivity|]. simpl.
+  rewrite S, Z.eqb_refl, L, Ld. simpl. apply option_eqb_str_refl.
+Qed.
+
+Lemma demand_single_fail hs cause : exists k, d_classes (demand_of (XFail hs cause)) = [k].
+Proof. simpl. destruct (first_applicable hs); simpl; eauto. Qed.
+
+Theorem entries_same fx proxy file c o sc :
+  xguard_F2 (loaded fx file c) sc = false -> match sc with XProxy _ => False | _ => True end ->
+  same_reply (seen_of_hfinal (entry_http fx proxy file c o sc)) (seen_of_gfinal (entry_grpc fx file c o sc)) = true /\
+  entry_http fx true file c o sc = entry_http fx false file c o sc.
+Proof.
+  intros G HX. split.
+  - destruct sc as [hs cause|v|p]; [| |contradiction].
+    + destruct (x_http_exact proxy (loaded fx file c) o (XFail hs cause) G I) as (k & s & h & b & E & Hin & Hs & Hl).
+      destruct (x_grpc_exact (loaded fx file c) o (XFail hs cause) G I) as (k' & d & E' & Hin' & Hs' & Hl').
+      destruct (demand_single_fail hs cause) as (k0 & K). rewrite K in Hin, Hin'.
+      destruct Hin as [<-|[]]. destruct Hin' as [<-|[]].
+      unfold entry_http, entry_grpc. rewrite E, E'.
+      remember (if fx1 fx then with_www (x_challenge (XFail hs cause)) h else h) as hh eqn:Hh.
+      remember (if fx1 fx
+                then {| g_code := g_code d; g_status := g_status d;
+                        g_hdrs := with_www (x_challenge (XFail hs cause)) (g_hdrs d); g_body := g_body d |}
+                else d) as dd eqn:Hd.
+      assert (L : h_location hh = h_location (g_hdrs dd)).
+      { subst hh dd. destruct (fx1 fx); simpl; [rewrite !with_www_loc|]; congruence. }
+      assert (S : g_status dd = s) by (subst dd; destruct (fx1 fx); simpl; congruence).
+      clear Hh Hd. simpl. unfold seen_of_gdenied.
+      destruct (gcode_eqb (g_code dd) GOk); [reflexivity|]. simpl.
+      rewrite L, S, Z.eqb_refl. simpl. apply option_eqb_str_refl.
+    + unfold entry_grpc, x_grpc_respond. simpl.
+      destruct (seen_of_hfinal (entry_http fx proxy file c o (XPanic v))); reflexivity.
+  - destruct sc as [hs cause|v|p]; [reflexivity | reflexivity | contradiction].
+Qed.
